@@ -60,6 +60,14 @@ CONSTRUCTS = {
     "where_clause": "#[typeshare]\npub struct Edge<T> where T: Clone { pub a: Vec<T> }\n",
     "macro_item": "macro_rules! m { () => {} }\nm!();\n#[typeshare]\npub struct Edge { pub a: u32 }\n",
     "empty_file_marker": "// #[typeshare] mentioned only in a comment\n",
+    # supported programs whose dependency walk re-enters a generic type several times
+    "generic_tree": "#[typeshare]\npub struct Edge<T> { pub value: T, pub left: Option<Box<Edge<T>>>, pub right: Option<Box<Edge<T>>> }\n",
+    "generic_enum_two_selfrefs": '#[typeshare]\n#[serde(tag = "t", content = "c")]\npub enum Edge<T> { Leaf(T), Neg(Box<Edge<T>>), Pair { l: Box<Edge<T>>, r: Vec<Edge<T>> } }\n',
+    "mutual_generic_twice": ("#[typeshare]\npub struct Edge<T> { pub a: Vec<Other<T>>, pub b: Option<Other<T>> }\n"
+                             "#[typeshare]\npub struct Other<T> { pub x: Vec<Edge<T>>, pub y: Option<Box<Edge<T>>> }\n"),
+    "generic_list": "#[typeshare]\npub struct Edge<T> { pub head: T, pub tail: Option<Box<Edge<T>>> }\n#[typeshare]\npub struct UsesEdge { pub l: Edge<String>, pub m: Vec<Edge<u32>> }\n",
+    "nonascii_enum_name": '#[typeshare]\n#[serde(tag = "t", content = "c")]\npub enum Événement { Début(u32), Fin { à: String }, Rien }\n',
+    "nonascii_struct_name": "#[typeshare]\npub struct Événement { pub début: u32 }\n#[typeshare]\npub type Übersicht = Vec<Événement>;\n",
 }
 
 LANG_ARGS = {"typescript": [], "kotlin": ["--java-package", "com.x"], "swift": [], "scala": ["--scala-package", "com.x"],
@@ -86,7 +94,7 @@ def run_vector(work, idx, v, trace=True):
     files = tree_for(v)
     cli.make_tree(d, files)
     out = os.path.join(d, "out")
-    args = ["-l", v["lang"]] + LANG_ARGS[v["lang"]]
+    args = ["-l", v["lang"]] + (LANG_ARGS[v["lang"]] if v.get("packages", "given") == "given" else [])
     if v["mode"] == "single":
         outpath = os.path.join(out, "out." + common.EXT[v["lang"]])
         os.makedirs(out, exist_ok=True)
@@ -101,7 +109,7 @@ def run_vector(work, idx, v, trace=True):
     r = cli.run_cli(args, env=env, timeout=WATCHDOG)
     written = [f for f in cli.snapshot(out)] if os.path.isdir(out) else []
     stems = {os.path.splitext(os.path.basename(f))[0] for f in files}
-    names = {"Edge": "edge", "EDGE": "edge", "Good": "good", "ZGood": "zgood"}
+    names = {"Edge": "edge", "EDGE": "edge", "Good": "good", "ZGood": "zgood", "Événement": "edge"}
     header, events = cli.read_trace(tr, stems, names, 2, 100, r["code"] if r["exit"] != "timeout" else None) if trace else (None, [])
     return r, written, header, events, files
 
@@ -122,14 +130,18 @@ def outcome_class(r, written, files):
 
 def judge_vector(chk, v, r, written, files):
     oc = outcome_class(r, written, files)
-    key = (v["construct"], v["lang"], v["mode"], v["companion"])
+    key = (v["construct"], v["lang"], v["mode"], v["companion"], v.get("packages", "given"))
     chk.judged(key)
     if oc == "exit0" or oc == "exit1-named":
         return oc
+    if v.get("expect") == "config_error" and oc == "exit1-unnamed" and re.search(r"--(go|scala)-package", r["stderr"]):
+        return "exit1-config"        # MC_C07!Expect: no file is at fault, the diagnostic names the missing option
     site = oc
     if oc.startswith("panic@"):
         site = "panic@" + re.sub(r"^.*/(core|cli|lib)/", r"\1/", oc[6:])
     comp = "alone" if v["companion"] == "none" else "with-companions"
+    if v.get("packages", "given") == "none":
+        comp += "+no-package-option"
     chk.mismatch(f"C07/{v['construct']}/{v['lang'] if 'language' in site or v['construct'].startswith('const') or 'language/' in site else 'anylang'}/{comp}/{site}",
                  f"{v['construct']} ({v['lang']}, {v['mode']}, companion={v['companion']}): {oc}; stderr: {r['stderr'][-300:].strip()}",
                  {"vector": v}, "exit 0 with output, or exit != 0 with a diagnostic naming the file", oc)
@@ -140,7 +152,8 @@ def validate_traces(chk, runs):
     """runs: [(header, events, label)] -> each validated separately against Trace_Pipeline."""
     n_ok = 0
     import concurrent.futures as cf
-    todo = [(h, e, l, o) for h, e, l, o in runs if h is not None and e]
+    # a configuration error ends the run before the pipeline starts: there is no behaviour of Pipeline.tla to validate
+    todo = [(h, e, l, o) for h, e, l, o in runs if h is not None and e and o != "exit1-config"]
     with cf.ThreadPoolExecutor(max_workers=8) as ex:
         futs = {ex.submit(common.trace_validate, "Trace_Pipeline", [h] + e, None, 300): (l, id(e)) for h, e, l, o in todo}
         results = {futs[f]: f.result() for f in cf.as_completed(futs)}
